@@ -253,6 +253,28 @@ static void sweep_long_names(long item)
         }
 }
 #define N_LONG 15
+/* (g) descriptor flags are booleans: an application may store any non-zero value in them (cfg & 0x02, a counter, -1) */
+#define N_FLAGV (6 * 4)
+static void sweep_flag_values(long item)
+{
+        static const int vals[6] = { 2, 4, 16, 128, 256, -2 };
+        volatile int v = vals[item % 6]; int which = (int)(item / 6);
+        w_begin();
+        struct cat_command *arr = w_group(3, false);
+        arr[0].name = xstr(which == 1 ? "D" : "+A"); arr[1].name = xstr(which == 1 ? "+B" : "+A"); arr[2].name = xstr("+Z"); arr[2].run = h_run;
+        set_handlers(&arr[0], 15); set_handlers(&arr[1], 15);
+        if (which == 0) arr[0].disable = v;                     /* the disabled one is invisible: the enabled duplicate behind it is selected */
+        else if (which == 1) { arr[0].implicit_write = v; set_handlers(&arr[0], 4); }
+        else if (which == 2) arr[0].only_test = v;
+        else { W.grp[0]->disable = v; struct cat_command *b = w_group(1, false); b[0].name = xstr("+A"); set_handlers(&b[0], 15); }      /* the whole first group is invisible */
+        snprintf(descr, sizeof descr, "sweep: flag %d of the first command / group set to the value %d", which, (int)v);
+        finish_world();
+        CNT("flag_value_cases");
+        bool bad = which == 0 ? !arr[0].disable : which == 1 ? !arr[0].implicit_write : which == 2 ? !arr[0].only_test : !W.grp[0]->disable;
+        if (bad) { viol("C02", "flag-value-lost", "descriptor flag %d was assigned the non-zero value %d and reads back as false: name resolution would ignore it", which, (int)v); return; }
+        line_for(which == 1 ? "D12" : "+A", 0, 0);
+        if (!case_failed()) line_for(which == 1 ? "D" : "+A", 1, which == 1 ? 0 : 1);
+}
 
 /* ---- random tables ---- */
 static void random_case(void)
@@ -289,7 +311,9 @@ static void random_case(void)
                 put_case_mixed("AT", 2);
                 const char *nm = names[rn(ncmd)]; size_t L = strlen(nm);
                 size_t take = chance(55) ? L : rn(L + 1);
-                for (size_t q = 0; q < take; q++) { char ch = nm[q]; if (chance(40)) ch = (char)((ch >= 'A' && ch <= 'Z') ? ch + 32 : (ch >= 'a' && ch <= 'z') ? ch - 32 : ch); in_putc(ch); if (chance(2)) in_putc('\r'); }
+                for (size_t q = 0; q < take; q++) { char ch = nm[q]; if (chance(40)) ch = (char)((ch >= 'A' && ch <= 'Z') ? ch + 32 : (ch >= 'a' && ch <= 'z') ? ch - 32 : ch);
+                        if (chance(2) && !((ch >= 'A' && ch <= 'Z') || (ch >= 'a' && ch <= 'z')) && (ch ^ 0x20) != '\n' && (ch ^ 0x20) != '\r' && (ch ^ 0x20) != 0) { ch = (char)(ch ^ 0x20); CNT("typed_names_with_the_case_bit_twin_of_a_non_letter"); }      /* only letters have a lower case: '_' and DEL, '+' and VT, '0' and DLE ... differ in the same bit */
+                        in_putc(ch); if (chance(2)) in_putc('\r'); }
                 if (chance(10)) in_putc(al[aoff + rn(asz)]);
                 if (chance(1)) in_putc("!.*-/ "[rn(6)]);
                 unsigned s = rn(10);
@@ -307,7 +331,7 @@ static void random_case(void)
 const char *PROP = "C02";
 struct case_budget chk_budget(const char *tier)
 {
-        struct case_budget b = { N_LANES + 360 + N_ALPHA + N_DUPS + N_CAND + N_LONG, 0 };
+        struct case_budget b = { N_LANES + 360 + N_ALPHA + N_DUPS + N_CAND + N_LONG + N_FLAGV, 0 };
         b.random = strcmp(tier, "thorough") == 0 ? 8000000 : 150000;
         return b;
 }
@@ -321,7 +345,8 @@ void chk_run_case(uint64_t seed, long c, bool is_sweep)
                 else if ((c -= 360) < N_ALPHA) sweep_alphabet(c);
                 else if ((c -= N_ALPHA) < N_DUPS) sweep_dups(c);
                 else if ((c -= N_DUPS) < N_CAND) sweep_candidates(c);
-                else sweep_long_names(c - N_CAND);
+                else if ((c -= N_CAND) < N_LONG) sweep_long_names(c);
+                else sweep_flag_values(c - N_LONG);
         } else random_case();
 }
 int main(int argc, char **argv) { MY_PROP = "C02"; PROG_NAME = "chk_C02"; return verif_main(argc, argv); }
